@@ -123,6 +123,7 @@ def gen_cases(seed, tier, purposes):
                             elif op in ('as', 'ma') and tag[a] is not None and tag[b] is not None: tag[a] = tag[b]
                             elif op == 'sw' and tag[a] is not None and tag[b] is not None: tag[a], tag[b] = tag[b], tag[a]
                     if acc == 'def': seq += ['c4:0:%d' % rnd.randrange(4)]
+                    if acc in ('st', 'px'): seq += ['lg']      # no accessor member was called by any of the operations
                     seq += ['un', 'df']
                     cases.append(VCase(inst, es_c, ss_c, pv, seq, 'C11', alt=(es2, ss2, pv2)))
             # ------------------------------------------------------------ C03: access forms
@@ -135,7 +136,7 @@ def gen_cases(seed, tier, purposes):
                     for f in (forms if not thorough else forms * 2):
                         ity = rnd.choice(list(C.ITYPES))
                         if any(v > C.hi(ity) for v in ix): ity = 'i64'
-                        seq.append('at:0:%s:%s:%s' % (f, ity, C.fmt(list(ix))))
+                        seq.append('%s:0:%s:%s:%s' % ('at' if acc != 'th' or rnd.random() < 0.4 else 'tx', f, ity, C.fmt(list(ix))))
                 wix = rnd.choice(idxs); val = rnd.randint(1, 999)
                 if acc == 'sf': seq += ['df']; cases.append(VCase(inst, es, ss, pv, seq, 'C03', dict(h=h)))
                 else:
